@@ -1091,6 +1091,13 @@ pub fn c13_server(thorough: bool) -> Part {
             companion(&mut part, &cfg, if thorough { 11 } else { 9 });
         }
     }
+    {
+        // the Expect head arrives while an earlier request of the same connection is still
+        // unanswered (or answered at any later moment): the 100 is due all the same
+        let mut cfg = SrvCfg::base("C13", "plain request unanswered, then an expect head, body later", vec![ClientCfg::well_behaved(vec![tagged_get(0, 0), tagged_expect_head(0, 1, 3), b"abc".to_vec()])]);
+        cfg.closure_all = true;
+        explore(&mut part, &cfg, 500_000, if thorough { 900.0 } else { 60.0 });
+    }
     if thorough {
         let mut cfg = SrvCfg::base(
             "C13",
